@@ -24,8 +24,16 @@ SecondCallOK(mem1, vin, mem2, vout, vout2) ==
     /\ VLane(mem2, vout2) = VLane(mem1, vout)
     /\ RemoveNanLaneOK(mem1, vin, mem2, vout2)
 
+(* every value handed out as a 'not-NaN' typed reference really is not missing: on every cell of the buffer the library's *)
+(* is_nan says "missing" exactly for the missing cells (whatever the NaN's sign, quiet bit or payload), try_as_not_nan     *)
+(* hands out exactly the non-missing values, and from_not_nan gives the value back                                         *)
+TypedRefOK(e) ==
+    /\ Len(e.isnan) = Len(e.mem0) /\ e.tnn = e.mem0 /\ e.back = e.mem0
+    /\ \A k \in DOMAIN e.mem0 : e.isnan[k] = (e.mem0[k] = 0)
+
 RemoveNanEvOK(e) ==
     /\ e.out = "ok"
+    /\ TypedRefOK(e)
     /\ InBuffer(e.mem0, e.vin)
     /\ RemoveNanOK(e.mem0, e.vin, e.mem1, e.vout)
     /\ FrameOK(e.mem1, e.mem2, e.vin)
